@@ -26,4 +26,11 @@ CLAIMS = {
                  "from constructors, so private renames do not matter.",
         "note": TRUST + "Imports C03 rows for what a slice/index denotes. std Iterator::chain/map/collect trusted.",
     },
+    "C06": {
+        "technique": "per-mutator effect summaries (ordered bit-range concatenations) + symbol-alignment typestate over all Seq constructors and in-place effects",
+        "level": "Decides each edit operation's effect on the bit vector as an ordered concatenation of whole-symbol ranges equal to the list model "
+                 "(push/append/prepend/insert/remove for all 9 Bound combinations/truncate/clear/extend/FromIterator), the insert assertion, and that "
+                 "every constructor and in-place effect keeps the length a whole number of symbols - the inductive step that stands in for all histories.",
+        "note": TRUST + "bitvec extend_from_bitslice/drain/truncate semantics trusted (model rows).",
+    },
 }
